@@ -151,6 +151,14 @@ func resampleFn(id int) func([]any) any {
 	}
 }
 
+func tempCSVPath() (string, func()) {
+	dir, err := os.MkdirTemp("", "verifcsv")
+	if err != nil {
+		panic(err)
+	}
+	return dir + "/frame.csv", func() { os.RemoveAll(dir) }
+}
+
 func okFrame(df *dataframe.DataFrame) Out {
 	f := Snapshot(df)
 	return Out{Status: "ok", Val: &Val{K: "frame", Frame: &f}}
@@ -366,9 +374,34 @@ func (r *Runner) Exec(o Op) (out Out) {
 		}
 	case "fromcsv":
 		r.noteCSVFields([]byte(o.Bytes))
+		if o.ViaFile {
+			path, cleanup := tempCSVPath()
+			defer cleanup()
+			if err := os.WriteFile(path, []byte(o.Bytes), 0o600); err != nil {
+				panic(err)
+			}
+			return derive(dataframe.NewDataFrame().FromCSV(path))
+		}
 		return derive(dataframe.FromCSVReader(bytes.NewReader([]byte(o.Bytes))))
 	case "tocsv", "csvroundtrip":
 		var buf bytes.Buffer
+		if o.ViaFile {
+			path, cleanup := tempCSVPath()
+			defer cleanup()
+			if err := df.ToCSV(path); err != nil {
+				return errOut(err)
+			}
+			data, err := os.ReadFile(path)
+			if err != nil {
+				return Out{Status: "err", Msg: "ToCSV reported success but the file cannot be read: " + err.Error()}
+			}
+			buf.Write(data)
+			r.noteCSVFields(buf.Bytes())
+			if o.K == "tocsv" {
+				return Out{Status: "ok", Val: &Val{K: "bytes", Bytes: BStr(buf.String())}}
+			}
+			return derive(dataframe.NewDataFrame().FromCSV(path))
+		}
 		if err := df.ToCSVWriter(&buf); err != nil {
 			return errOut(err)
 		}
